@@ -120,6 +120,8 @@ inductive Err where
   | missing    -- --fail-on-missing-taxonomy
   | thr        -- threshold outside [0, 1]
   | empty      -- nothing loaded
+  | dupq       -- "Gather query … was found in more than one CSV"
+  | cols       -- "… is missing columns needed for taxonomic summarization"
   | unbound    -- `UnboundLocalError` in `LineageDB.load`: a LIN taxonomy file without any row (finding C19.4)
   | other
 deriving Repr, DecidableEq
@@ -428,6 +430,37 @@ def kreportGo (totalBp : Nat) : List (Entry F64.SF String) → Bool → List KRo
 the (shared, possibly re-sorted) list has them, the unclassified remainder reported once (the first one met) -/
 def kreportRows (totalBp : Nat) (ess : List (List (Entry F64.SF String))) : List KRow :=
   kreportGo totalBp (ess.flatten.filter (fun e => e.rank < 7)) false
+
+/-! ### `load_gather_results` / `check_and_load_gather_csvs`: grouping the CSV rows into one result per query -/
+
+/-- `gather_results.get(query_name, new)` + `add_taxresult`: the row joins the result already stored under its query
+name (wherever earlier rows of that query were in the file), or starts a new one — results keep first-appearance order -/
+def groupAdd {κ β : Type} [DecidableEq κ] (key : κ) (x : β) : List (κ × List β) → List (κ × List β)
+  | [] => [(key, [x])]
+  | (k, l) :: t => if k = key then (k, l ++ [x]) :: t else (k, l) :: groupAdd key x t
+
+/-- all rows of one file, grouped -/
+def groupRows {κ β : Type} [DecidableEq κ] (rows : List (κ × β)) (acc : List (κ × List β)) : List (κ × List β) :=
+  rows.foldl (fun a r => groupAdd r.1 r.2 a) acc
+
+/-- one gather CSV: a row whose query was already loaded from an EARLIER file is refused, a row without lineage is refused
+under `--fail-on-missing-taxonomy`, a file without rows is refused -/
+def loadFile {κ β : Type} [DecidableEq κ] (failMissing : Bool) (missing : β → Bool) (seen : List κ) :
+    List (κ × β) → List (κ × List β) → Except Err (List (κ × List β))
+  | [], acc => if acc.isEmpty then .error .empty else .ok acc
+  | (k, x) :: t, acc =>
+    if seen.contains k then .error .dupq
+    else if failMissing && missing x then .error .missing
+    else loadFile failMissing missing seen t (groupAdd k x acc)
+
+/-- `check_and_load_gather_csvs` (no `--force`): the files in order, `gather_results.update(these_results)` -/
+def loadFiles {κ β : Type} [DecidableEq κ] (failMissing : Bool) (missing : β → Bool) :
+    List (List (κ × β)) → List (κ × List β) → Except Err (List (κ × List β))
+  | [], acc => .ok acc
+  | f :: fs, acc =>
+    match loadFile failMissing missing (acc.map Prod.fst) f [] with
+    | .error e => .error e
+    | .ok these => loadFiles failMissing missing fs (acc ++ these)
 
 /-! ### identifiers and taxonomy loading (strings) -/
 
